@@ -19,6 +19,7 @@ type skipConcEngine struct {
 	bufs  []*skiplist.ActionBuffer
 	iters []map[string]*skiplist.Iterator
 	valid []map[string]bool
+	keep  []unsafe.Pointer // items are referenced from off-heap nodes only: keep them reachable for Go's collector
 }
 
 func init() { engines["skipconc"] = func() engine { return &skipConcEngine{} } }
@@ -115,8 +116,10 @@ func (e *skipConcEngine) step(toks []string) string {
 			if !ok || !ok2 || len(toks) != 5 {
 				return "bad-op"
 			}
+			itm := skiplist.NewIntKeyItem(k)
+			e.keep = append(e.keep, itm)
 			f = func() string {
-				_, succ := s.Insert2(skiplist.NewIntKeyItem(k), skiplist.CompareInt, nil, buf, scripted(l), &s.Stats)
+				_, succ := s.Insert2(itm, skiplist.CompareInt, nil, buf, scripted(l), &s.Stats)
 				return fmt.Sprint(succ)
 			}
 		case "del", "look":
